@@ -176,7 +176,7 @@ def step [DecidableEq V] (m : List (K × List V)) : AMOp K V → List (K × List
     | none => (add m k dflt, .val dflt)
   | .pop k dflt i =>
     match dget m k, dflt with
-    | some l, _ => (ddel m k, match pyIndex l i with | some v => .val v | none => .err .IndexError)
+    | some l, _ => (match pyIndex l i with | some v => (ddel m k, .val v) | none => (m, .err .IndexError))
     | none, some dv => (m, .val dv)
     | none, none => (m, .err .KeyError)
   | .poplist k dflt =>
@@ -186,8 +186,9 @@ def step [DecidableEq V] (m : List (K × List V)) : AMOp K V → List (K × List
     | none, none => (m, .err .KeyError)
   | .popitem last i =>
     match (if last then m.getLast? else m.head?) with
-    | some (k, l) => (if last then m.dropLast else m.tail,
-        match pyIndex l i with | some v => .item k v | none => .err .IndexError)
+    | some (k, l) => (match pyIndex l i with
+        | some v => (if last then m.dropLast else m.tail, .item k v)
+        | none => (m, .err .IndexError))
     | none => (m, .err .KeyError)
   | .poplistitem last =>
     match (if last then m.getLast? else m.head?) with
